@@ -96,7 +96,7 @@ def expected_of(rec: dict):
             exp["cat_type"] = rec["cat_type"]
         exp["values"] = [[None if v is None else float(v) for v in s["values"]] for s in rec["series"]]
     else:
-        exp["values"] = [[float(p[1]) for p in s["points"]] for s in rec["series"]]
+        exp["values"] = [[None if p[1] is None else float(p[1]) for p in s["points"]] for s in rec["series"]]
     return exp
 
 
@@ -716,6 +716,7 @@ def gen_trace(seed: int, tier: str, which=("c07",)) -> dict:
     n = r.randint(6, 22) if not thorough else r.randint(12, 60)
     events, sw = common.gen_history(seed, fault_rate=common.fault_arm(seed), n_events=n, families=["c07"], always=("c07",), ckpt=0.05, reopen=0.07, restart=0.04,
                                     observe=0.02, jump=0.03, fork=0.03, warmup=False)
+    common.rewritten_between_sessions(seed, events, hows=("bool_words",))
     rs = S("start")
     start = {"deck": rs.choice(CHART_DECKS), "form": rs.choice(["stream", "path", "dir"])}
     pre = [{"op": "add_slide", "layout": 6, "dt": 1.0}]
